@@ -82,6 +82,13 @@ type barrierErr struct {
 	smsg redact.RedactableString
 	// Masked error chain.
 	maskedErr error
+	// receivedDetails holds the safe details that came with this
+	// barrier when it was received from another process. They are sent
+	// on unchanged if the error travels further: this process may not
+	// know all the types behind the barrier, and what it would compute
+	// from the masked error it has decoded could then differ from what
+	// the origin computed.
+	receivedDetails []string
 }
 
 var _ error = (*barrierErr)(nil)
@@ -120,11 +127,15 @@ func encodeBarrier(
 ) (msg string, details []string, payload proto.Message) {
 	e := err.(*barrierErr)
 	enc := errbase.EncodeError(ctx, e.maskedErr)
-	return string(e.smsg), e.SafeDetails(), &enc
+	details = e.receivedDetails
+	if details == nil {
+		details = e.SafeDetails()
+	}
+	return string(e.smsg), details, &enc
 }
 
 // A barrier error is decoded exactly.
-func decodeBarrier(ctx context.Context, msg string, _ []string, payload proto.Message) error {
+func decodeBarrier(ctx context.Context, msg string, details []string, payload proto.Message) error {
 	enc, ok := payload.(*errbase.EncodedError)
 	if !ok {
 		// If this ever happens, this means some version of the library
@@ -132,16 +143,16 @@ func decodeBarrier(ctx context.Context, msg string, _ []string, payload proto.Me
 		// was lost in transit. Let the caller fall back to an opaque type.
 		return nil
 	}
-	return &barrierErr{smsg: redact.RedactableString(msg), maskedErr: errbase.DecodeError(ctx, *enc)}
+	return &barrierErr{smsg: redact.RedactableString(msg), maskedErr: errbase.DecodeError(ctx, *enc), receivedDetails: details}
 }
 
 // Previous versions of barrier errors.
-func decodeBarrierPrev(ctx context.Context, msg string, _ []string, payload proto.Message) error {
+func decodeBarrierPrev(ctx context.Context, msg string, details []string, payload proto.Message) error {
 	enc, ok := payload.(*errbase.EncodedError)
 	if !ok {
 		return nil
 	}
-	return &barrierErr{smsg: redact.Sprint(msg), maskedErr: errbase.DecodeError(ctx, *enc)}
+	return &barrierErr{smsg: redact.Sprint(msg), maskedErr: errbase.DecodeError(ctx, *enc), receivedDetails: details}
 }
 
 // barrierError is the "old" type name of barrierErr. We use a new
